@@ -7,6 +7,7 @@ GROUP = "float"
 LEAN_PROPS = "Dashu.Props.C10"
 LEAN_AUDIT = "Dashu.Audit.C10"
 USES_GEN = True
+READY = True
 GEN_PROPS = ["Dashu.Props.GenRound"]
 GEN_AUDIT = ["Dashu.Audit.GenRound"]
 
@@ -97,7 +98,7 @@ def gen_primitives(rng, tier):
                         for m in MODES:
                             yield Case("r.ratio", [m, dec(10), hx(n), hx(sn * num), hx(sd * d)])
     # large random integers / fractions
-    cnt = 300 if tier == "quick" else 6000
+    cnt = 300 if tier == "quick" else 30000
     for _ in range(cnt):
         B = rng.choice(BASES); m = rng.choice(MODES)
         k = rng.choice([1, 2, 5, 17, 40, 64, 129])
@@ -165,7 +166,7 @@ def float_values(rng, B, p):
     return s, e
 
 def gen_floats(rng, tier):
-    cnt = 5000 if tier == "quick" else 120000
+    cnt = 5000 if tier == "quick" else 400000
     ops = ["f.trunc", "f.floor", "f.ceil", "f.round", "f.round", "f.fract", "f.split", "f.to_int", "f.to_int",
            "f.to_int", "f.repr_to_int"]
     for _ in range(cnt):
@@ -180,7 +181,7 @@ def gen_floats(rng, tier):
         if p and ndigits(B, s) > p:
             continue
         yield Case(op, [fenc(B, s, e, p, m)])
-    cnt = 1500 if tier == "quick" else 40000
+    cnt = 1500 if tier == "quick" else 120000
     for _ in range(cnt):
         B = rng.choice(BASES); m = rng.choice(MODES)
         p = rng.choice(PRECS)
@@ -195,7 +196,7 @@ def gen_rational(rng, tier):
         for n in range(-3 * d - 1, 3 * d + 2):
             for op in ("q.trunc", "q.floor", "q.ceil", "q.round", "q.fract", "q.split"):
                 yield Case(op, [hx(n), hx(d)], nontrivial=False)
-    cnt = 400 if tier == "quick" else 10000
+    cnt = 400 if tier == "quick" else 40000
     for _ in range(cnt):
         d = rng.choice([rng.getrandbits(64) | 1, rng.getrandbits(130) | 1, 2 * rng.getrandbits(70) + 2, 1 << 64, (1 << 128) - 1])
         q = rng.choice([0, 1, rng.getrandbits(66), rng.getrandbits(200)])
